@@ -10,7 +10,7 @@ from gen import rng_for
 LEAN = "PystogVerif.Props.C19"
 # theorems about the code generated from stog.py / cli.py by tools/translate_stog.py (built when these methods translate)
 LEAN_GEN = "PystogVerif.Props.C19Gen"
-STOG_METHODS = ['__init__', '__kwargs2attr', 'set_rmin', 'set_rmax', 'set_rdelta', 'set_low_q_correction', 'set_lorch_flag', 'set_real_space_function', 'create_domain', '__update_dr', 'apply_scales_and_offset', 'merge_data', 'transform_merged', 'fourier_filter', 'apply_lorch', '_add_keen_fq', '_add_keen_gr', 'cli_workflow', 'write_out_merged_sq', 'write_out_merged_gr', 'write_out_ft', 'write_out_ft_sq', 'write_out_ft_gr', 'write_out_lorched_gr', 'write_out_rmc_fq', 'write_out_rmc_gr']
+STOG_METHODS = ['parse_cli_args', '__init__', '__kwargs2attr', 'set_rmin', 'set_rmax', 'set_rdelta', 'set_low_q_correction', 'set_lorch_flag', 'set_real_space_function', 'create_domain', '__update_dr', 'apply_scales_and_offset', 'merge_data', 'transform_merged', 'fourier_filter', 'apply_lorch', '_add_keen_fq', '_add_keen_gr', 'cli_workflow', 'write_out_merged_sq', 'write_out_merged_gr', 'write_out_ft', 'write_out_ft_sq', 'write_out_ft_gr', 'write_out_lorched_gr', 'write_out_rmc_fq', 'write_out_rmc_gr']
 ENTRIES = []
 RULE = ("the present/absent subset of the 11 optional keys is enumerated by case index (2^11 subsets over the thorough tier, 150 in quick), "
         "values random (real-space function x Lorch x low-Q correction x filter cutoff x Rdelta|Rpoints x 1-2 input files); 15% of cases carry "
